@@ -55,7 +55,7 @@ def partitions_ok(n: int, edges: List[Tuple[int, int]], sizes: List[Optional[int
 
 
 def ref_groups(n: int, edges: List[Tuple[int, int]], sizes: Any, borders: bool):
-    """sizes: None | int | list of Optional[int]"""
+    """sizes: None | int | term (one symbolic size for all) | list of Optional[int | term]; a term is ("S", k)"""
     cn = Canon({})
     G = lambda i: ("gid", i)  # noqa: E731
     R = lambda i: ("rank", i)  # noqa: E731
@@ -83,10 +83,11 @@ def ref_groups(n: int, edges: List[Tuple[int, int]], sizes: Any, borders: bool):
                 out.append(cn.nary("or", [cn.neg(Z(i)), cn.cmp("==", DS(i), TS(i))]))
                 terms = [("ite", cn.nary("and", [A(e), cn.cmp(">", R(j), R(i))]), DS(j), ("c", 0)) for j, e in inc[i]]
                 out.append(cn.cmp("==", cn.add(terms + [("c", 1)]), DS(i)))
-                s = sizes if isinstance(sizes, int) else sizes[i]
+                scalar = isinstance(sizes, (int, tuple))
+                s = sizes if scalar else sizes[i]
                 if s is not None:
-                    out.append(cn.cmp("==", TS(i), ("c", s)))
-            if not isinstance(sizes, int):
+                    out.append(cn.cmp("==", TS(i), s if isinstance(s, tuple) else ("c", s)))
+            if not isinstance(sizes, (int, tuple)):
                 for e, (u, v) in enumerate(edges):
                     out.append(cn.nary("or", [cn.neg(A(e)), cn.cmp("==", TS(u), TS(v))]))
         if borders:
@@ -132,7 +133,7 @@ def run(repo: Repo, rep: Report) -> None:
     rep.rule("ENC-S", "variable-group division posts the reference root/rank/tree-edge/size-accounting schema; the border form ties each border flag to 'different group ids' or uses the native operator (deviations triaged by projection)")
     rep.rule("ALG-4D", "grid/border form: the inner frame is dualised so that each border variable lies on the edge between the two cells it separates")
     rep.saw(GRAPH, "_division_connected_variable_groups")
-    size_cases = lambda n: [None, 2, [None] * n, [2] + [None] * (n - 1), [1] * n, [n] + [None] * (n - 1)]  # noqa: E731
+    size_cases = lambda n: [None, 2, [None] * n, [2] + [None] * (n - 1), [1] * n, [n] + [None] * (n - 1), "var", "varlist", "array"]  # noqa: E731
     # ---- without borders -----------------------------------------------------------------------
     deviating = []
     xitems: List[Any] = []
@@ -142,13 +143,19 @@ def run(repo: Repo, rep: Report) -> None:
             for sizes in size_cases(n):
                 inst = Instance(repo)
                 g = inst.w.graph(n, edges)
-                ret = inst.w.call("division_connected_variable_groups", inst.s, graph=g, group_size=sizes)
+                arg = sizes
+                if isinstance(sizes, str):
+                    # sizes given as the caller's own integer variables: one IntVar, a list of IntVars, an IntArray1D
+                    sv = inst.user_ints(1 if sizes == "var" else n, 1, n, "S")
+                    arg = sv.attrs["data"][0] if sizes == "var" else (list(sv.attrs["data"]) if sizes == "varlist" else sv)
+                    sizes = ("S", 0) if sizes == "var" else [("S", k) for k in range(n)]
+                ret = inst.w.call("division_connected_variable_groups", inst.s, graph=g, group_size=arg)
                 refs, cons = ref_groups(n, edges, sizes, False)
                 same, diff = compare(inst, refs, cons)
                 ret_ids = [v.attrs.get("id") for v in ret.attrs["data"]] if isinstance(ret, Obj) and "data" in ret.attrs else None
                 if same and (ret_ids is None or [LAST_MATCH.get(i) for i in ret_ids] != [("gid", k) for k in range(n)]):
                     same, diff = False, f"the returned value is not the group-id array but {[LAST_MATCH.get(i) for i in (ret_ids or [])]}"
-                if same and n <= 3 and ret_ids:
+                if same and n <= 3 and ret_ids and not any(isinstance(x, tuple) for x in (sizes if isinstance(sizes, list) else [sizes])):
                     szl = [sizes] * n if isinstance(sizes, int) else ([None] * n if sizes is None else list(sizes))
                     xitems.append((f"graph '{gname}' {edges}, group_size={sizes}", inst, list(ret_ids), szl, n, edges))
                 if same:
@@ -280,7 +287,7 @@ def _triage(rep: Report, label: str, devs: List[Any], with_borders: bool) -> Non
     undecided = None
     t0 = time.time()
     def has_sizes(d: Any) -> int:
-        return 0 if (isinstance(d[5], int) or (d[5] and any(x is not None for x in d[5]))) else 1
+        return 0 if (isinstance(d[5], (int, tuple)) or (d[5] and any(x is not None for x in d[5]))) else 1
 
     def cyclic_first(d: Any) -> int:
         return 0 if "tail" in d[0] and has_sizes(d) == 0 else 1
@@ -288,6 +295,32 @@ def _triage(rep: Report, label: str, devs: List[Any], with_borders: bool) -> Non
     for desc, n, edges, inst, diff, sizes, ret_ids in sorted(devs, key=lambda d: (cyclic_first(d) if len(devs) > 20 else 1, d[1], has_sizes(d), len(d[2]))):
         if time.time() - t0 > 60:
             break
+        symbolic = isinstance(sizes, tuple) or (isinstance(sizes, list) and any(isinstance(x, tuple) for x in sizes))
+        if symbolic and not with_borders:
+            # sizes are the caller's variables: project on (group ids, sizes) and judge each realised pair
+            if not ret_ids or any(i is None for i in ret_ids):
+                rep.finding("ENC-S", GRAPH, "_division_connected_variable_groups", f"{label} result", f"{label} [{desc}]: {diff}")
+                return
+            sids = [a for a in inst.arrays if a["user"] == "S"][0]["ids"]
+            proj = projection(inst, list(ret_ids) + list(sids), budget_s=8.0)
+            if proj is None:
+                undecided = f"{label} [{desc}]: deviates from the reference schema ({diff}); projection enumeration exceeded its budget"
+                continue
+            realised: Dict[Tuple[int, ...], set] = {}
+            for t in proj:
+                realised.setdefault(tuple(t[len(ret_ids):]), set()).add(gid_partition(tuple(t[:len(ret_ids)])))
+            for sv in itertools.product(range(1, n + 1), repeat=len(sids)):
+                szl2 = [sv[0]] * n if isinstance(sizes, tuple) else list(sv)
+                want2 = partitions_ok(n, edges, szl2)
+                got2 = realised.get(tuple(sv), set())
+                acc, rej = got2 - want2, want2 - got2
+                if acc or rej:
+                    w_ = sorted(map(sorted, next(iter(acc or rej))))
+                    rep.finding("ENC-S", GRAPH, "_division_connected_variable_groups", f"{label} encoding",
+                                f"{label} on [{desc}] (edges {edges}): deviates from the reference schema ({diff}) and with the size variables set to {list(sv)} "
+                                f"{'realises' if acc else 'cannot realise'} the partition {w_}, which is {'not ' if acc else ''}a valid division for those sizes")
+                    return
+            continue
         szl = [sizes] * n if isinstance(sizes, int) else ([None] * n if sizes is None else sizes)
         want_parts = partitions_ok(n, edges, szl)
         if with_borders:
